@@ -152,12 +152,11 @@ theorem runNode_not (nd : Node) (hcls : nd.cls = "Not") (hk : nd.keyOf .self = n
     rw [mapM_conv_not nd hk]
     rfl
 
-/-- one step of the induction `runIR irTable = eval`: the `Not` node -/
-theorem C01_runIR_eq_eval_not_partial (w : World) (e : Expr)
-    (ih : ∀ env, runIR irTable w e env = liftE (eval w e env)) (env : Env) :
+/-- the `Not` node, pointwise: if `runIR irTable` agrees with `eval` on the operand under `env`, it agrees on `Not` -/
+theorem C01_runIR_eq_eval_not_partial (w : World) (e : Expr) (env : Env)
+    (ih : runIR irTable w e env = liftE (eval w e env)) :
     runIR irTable w (.not e) env = liftE (eval w (.not e) env) := by
-  rw [runIR]
-  rw [runNode_not _ rfl rfl]
+  rw [runIR, runNode_not _ rfl rfl]
   simp only [ih, eval]
   cases eval w e env with
   | error err => rfl
@@ -465,16 +464,17 @@ theorem runNode_and (nd : Node) (hcls : nd.cls = "AND") (hk : nd.keyOf .self = n
       simp only [bind_assoc, pure_bind]
       rfl
 
-theorem and_model (F : Env → Except Err (List (Env × Bool))) (ls : List (Env × Bool)) :
+theorem and_model (F : Env → Except Err (List (Env × Bool))) (G : Env → R (List (Env × Bool))) (ls : List (Env × Bool))
+    (hG : ∀ p ∈ ls, p.2 = true → G p.1 = liftE (F p.1)) :
     (flatMapR (addVal ls) (fun a => if a.2.2 then
-        ((liftE (F a.1) >>= fun x => pure (addVal x)) >>= fun rs => pure (rs.map fun c => (c.1, Val.none, c.2.2)))
+        ((G a.1 >>= fun x => pure (addVal x)) >>= fun rs => pure (rs.map fun c => (c.1, Val.none, c.2.2)))
         else pure [(a.1, Val.none, false)]) >>= fun rs => pure (dropVal rs))
       = liftE (flatMapM ls fun p => if p.2 then F p.1 else pure [(p.1, false)]) := by
   induction ls with
   | nil => rfl
   | cons p rest ih =>
     obtain ⟨e, t⟩ := p
-    have ih' := ih
+    have ih' := ih (fun p hp => hG p (List.mem_cons_of_mem _ hp))
     cases hrest : flatMapM rest (fun p => if p.2 then F p.1 else pure [(p.1, false)]) with
     | error err =>
       rw [hrest] at ih'
@@ -485,7 +485,8 @@ theorem and_model (F : Env → Except Err (List (Env × Bool))) (ls : List (Env 
         | error e2 => rw [hx] at ih'; cases ih'; rfl
         | ok x => rw [hx] at ih'; cases ih'
       | true =>
-        simp only [addVal, List.map_cons, flatMapR, flatMapM, hrest] at ih' ⊢
+        have hGe := hG (e, true) (List.mem_cons_self ..) rfl
+        simp only [addVal, List.map_cons, flatMapR, flatMapM, hrest, hGe] at ih' ⊢
         cases F e with
         | error e3 => rfl
         | ok fs =>
@@ -505,7 +506,8 @@ theorem and_model (F : Env → Except Err (List (Env × Bool))) (ls : List (Env 
           simp [liftE, dropVal, ← this]
           rfl
       | true =>
-        simp only [addVal, List.map_cons, flatMapR, flatMapM, hrest] at ih' ⊢
+        have hGe := hG (e, true) (List.mem_cons_self ..) rfl
+        simp only [addVal, List.map_cons, flatMapR, flatMapM, hrest, hGe] at ih' ⊢
         cases F e with
         | error e3 => rfl
         | ok fs =>
@@ -517,16 +519,50 @@ theorem and_model (F : Env → Except Err (List (Env × Bool))) (ls : List (Env 
             simp [liftE, dropVal, addVal, ← this, List.map_map, Function.comp_def]
             rfl
 
-/-- one step of the induction `runIR irTable = eval`: the `AND` node -/
-theorem C01_runIR_eq_eval_and_partial (w : World) (l r : Expr)
-    (ihl : ∀ env, runIR irTable w l env = liftE (eval w l env))
-    (ihr : ∀ env, runIR irTable w r env = liftE (eval w r env)) (env : Env) :
+/-- the `AND` node, pointwise: agreement on the left operand under `env` and on the right operand under the bindings of
+every TRUE result of the left operand gives agreement on the conjunction -/
+theorem C01_runIR_eq_eval_and_partial (w : World) (l r : Expr) (env : Env)
+    (ihl : runIR irTable w l env = liftE (eval w l env))
+    (ihr : ∀ ls, eval w l env = .ok ls → ∀ p ∈ ls, p.2 = true → runIR irTable w r p.1 = liftE (eval w r p.1)) :
     runIR irTable w (.and l r) env = liftE (eval w (.and l r) env) := by
   rw [runIR, runNode_and _ rfl rfl]
-  simp only [ihl, ihr, eval]
-  cases eval w l env with
+  simp only [ihl, eval]
+  cases hl : eval w l env with
   | error err => rfl
-  | ok ls => exact and_model (eval w r) ls
+  | ok ls => exact and_model (eval w r) (runIR irTable w r) ls (ihr ls hl)
 
+/-- the class of expressions on which `runIR irTable` agrees with `eval` under EVERY environment is closed under `not_`
+and `and_` (corollary of the two pointwise theorems) -/
+theorem C01_runIR_eq_eval_closed_partial (w : World) :
+    (∀ e, (∀ env, runIR irTable w e env = liftE (eval w e env)) →
+      ∀ env, runIR irTable w (.not e) env = liftE (eval w (.not e) env)) ∧
+    (∀ l r, (∀ env, runIR irTable w l env = liftE (eval w l env)) → (∀ env, runIR irTable w r env = liftE (eval w r env)) →
+      ∀ env, runIR irTable w (.and l r) env = liftE (eval w (.and l r) env)) :=
+  ⟨fun e h env => C01_runIR_eq_eval_not_partial w e env (h env),
+   fun l r hl hr env => C01_runIR_eq_eval_and_partial w l r env (hl env) (fun _ _ p _ _ => hr p.1)⟩
+
+/-! ### non-vacuity: the hypotheses of the node and step theorems are satisfiable, and the interpreter runs in the kernel -/
+
+example : ∃ nd : Node, nd.cls = "Not" ∧ nd.keyOf .self = none := ⟨{ cls := "Not" }, rfl, rfl⟩
+example : ∃ nd : Node, nd.cls = "AND" ∧ nd.keyOf .self = none := ⟨{ cls := "AND" }, rfl, rfl⟩
+
+def w0 : World := { objs := [], doms := [(0, [.bool true, .bool false])] }
+
+/-- a leaf on which the kernel checks the agreement by evaluation (`Variable._evaluate__` as a condition) -/
+theorem leaf0 : runIR irTable w0 (.truth (.var 0)) [] = liftE (eval w0 (.truth (.var 0)) []) := by rfl
+
+example : runIR irTable w0 (.not (.truth (.var 0))) [] = liftE (eval w0 (.not (.truth (.var 0))) []) :=
+  C01_runIR_eq_eval_not_partial w0 _ _ leaf0
+
+example : runIR irTable w0 (.and (.truth (.var 0)) (.not (.truth (.var 0)))) []
+    = liftE (eval w0 (.and (.truth (.var 0)) (.not (.truth (.var 0)))) []) := by
+  refine C01_runIR_eq_eval_and_partial w0 _ _ _ leaf0 ?_
+  intro ls hls p hp _
+  have : ls = [([(.var 0, .bool true)], true), ([(.var 0, .bool false)], true)] := by
+    have h0 : eval w0 (.truth (.var 0)) [] = .ok [([(.var 0, .bool true)], true), ([(.var 0, .bool false)], true)] := by rfl
+    rw [h0] at hls; cases hls; rfl
+  subst this
+  simp only [List.mem_cons, List.mem_nil_iff, or_false] at hp
+  rcases hp with rfl | rfl <;> exact C01_runIR_eq_eval_not_partial w0 _ _ (by rfl)
 
 end KrroodVerif.Eql.IR
